@@ -90,6 +90,7 @@ func plan(c *Ctx, seeds []*Seed, pc planCfg) []Case {
 		}
 	}
 	classSeen := map[string]int{}
+	hdrSeen := map[string]int{}
 	bySeedFam := map[string][]*Seed{}
 	for _, s := range seeds {
 		bySeedFam[s.Fam] = append(bySeedFam[s.Fam], s)
@@ -149,7 +150,15 @@ func plan(c *Ctx, seeds []*Seed, pc planCfg) []Case {
 		}
 		// A2. every header byte x every value
 		hl := min(s.HdrLen, 300, len(s.Data))
-		if pc.thorough && !pc.forC09 {
+		// thorough: EVERY header byte x EVERY value for the first stream of each (codec, components)
+		// class; the other geometries of the class get a large sample (memory: cases are materialised)
+		hcls := s.Name
+		if i := strings.Index(hcls, "-"); i > 0 {
+			hcls = hcls[:i]
+		}
+		hcls += fmt.Sprintf("/%d", s.FI.SPP)
+		hdrSeen[hcls]++
+		if pc.thorough && !pc.forC09 && hdrSeen[hcls] == 1 {
 			for p := 0; p < hl; p++ {
 				for v := 0; v < 256; v++ {
 					if int(s.Data[p]) == v {
@@ -511,8 +520,8 @@ func execute(c *Ctx, cases []Case, st *runState, confirmTimeouts bool, on func(c
 			for k, i := range again {
 				cs2[k] = batch[i]
 			}
-			if len(cs2) > 24 { // each costs up to 10 s on 2 children
-				cs2 = cs2[:24]
+			if len(cs2) > 8 { // each costs up to 10 s on 2 children
+				cs2 = cs2[:8]
 			}
 			r2 := RunCases(runCfg{Workers: min(2, c.Work), Timeout: watchdog, ASLimit: asLimit}, cs2)
 			for k, i := range again {
@@ -847,7 +856,7 @@ func runC08(c *Ctx) {
 		c.R.Note("seed corpus: %d valid streams (%d with an estimated decode cost >= 40 ms get thinned mutation sets)", len(seeds), slow)
 		pc := planCfg{thorough: c.Thor, byteValPer: 90, havocPer: 40, randomPerFam: 4000, splices: 3000, rleFI: 3000, denseTrunc: 800}
 		if c.Thor {
-			pc.havocPer, pc.randomPerFam, pc.splices, pc.rleFI, pc.denseTrunc = 1500, 60000, 60000, 40000, 4000
+			pc.byteValPer, pc.havocPer, pc.randomPerFam, pc.splices, pc.rleFI, pc.denseTrunc = 1500, 600, 60000, 60000, 40000, 3000
 		}
 		runCorr(c, seeds)
 		if os.Getenv("PARSERS_ONLYCORR") != "" { // development aid
